@@ -430,7 +430,7 @@ def run_real(case: dict, fault=None, mode="exn") -> dict:
     """Run the real save once (optionally with an injected fault). mode 'crash' forks."""
     import onnx_ir._core as core
 
-    root = tempfile.mkdtemp(prefix="c08-")
+    root = tempfile.mkdtemp(prefix="c08-", dir=_BASE[0])
     old_chunk = core._EXTERNAL_TENSOR_COPY_CHUNK_SIZE
     try:
         objs, exts, inomap = _build(case, root)
@@ -932,8 +932,9 @@ def gen_sharded(rng) -> dict:
     shards = shard_split(sizes, case["max_shard"])
     names = [shard_name(dest, i + 1, len(shards)) for i in range(len(shards))]
     case["jobs"] = [[n, idx] for n, idx in zip(names, shards)]
-    if len(shards) > 1 and rng.random() < 0.25:
-        pre[rng.choice(names)] = {"bytes": [rng.randrange(256) for _ in range(4)], "mode": 0o644}
+    if len(shards) > 1 and rng.random() < 0.4:
+        taken = rng.choice(names[1:]) if rng.random() < 0.6 else rng.choice(names)
+        pre[taken] = {"bytes": [rng.randrange(256) for _ in range(4)], "mode": 0o644}
     return finalize(case)
 
 
@@ -969,21 +970,88 @@ def finalize(case: dict) -> dict:
     return case
 
 
+_BASE = [None]  # per-run scratch directory; every real directory is created below it
+
+
+def _merge_part(dst, src: dict) -> None:
+    dst["evaluations"] += src["evaluations"]
+    dst["distinct"] += src["distinct"]
+    for x in src["samples"]:
+        if len(dst["samples"]) < 2:
+            dst["samples"].append(x)
+    for k, v in src["dist"].items():
+        dst["dist"][k] = dst["dist"].get(k, 0) + v
+    dst["disagreements"] += src["disagreements"][: max(0, 10 - len(dst["disagreements"]))]
+    dst["failures"] += src["failures"][: max(0, 10 - len(dst["failures"]))]
+
+
+def _isolated(case: dict, crash: bool, only=None, timeout: int = 900) -> dict:
+    """Check one case in a forked child: real code that dies with a signal (e.g. SIGBUS when an mmap of
+    a truncated file is read) must not take the harness down, it is an observation."""
+    import signal
+
+    r, w = os.pipe()
+    sys.stdout.flush()
+    sys.stderr.flush()
+    pid = os.fork()
+    if pid == 0:
+        rc = 0
+        try:
+            os.close(r)
+            signal.alarm(timeout)
+            part = Part()
+            try:
+                check_case(part, case, crash=crash, only=only)
+            except Infra as e:
+                part["infra"] = str(e)
+            except Exception as e:  # harness problem: reported as a disagreement so that it is looked at
+                import traceback
+
+                part.disagree("harness exception " + repr(e), {"case": case, "tb": traceback.format_exc()[-800:]})
+            data = json.dumps(part, default=str).encode()
+            with os.fdopen(w, "wb") as fh:
+                fh.write(data)
+        except BaseException:
+            rc = 4
+        finally:
+            os._exit(rc)
+    os.close(w)
+    chunks = []
+    with os.fdopen(r, "rb") as fh:
+        while True:
+            b = fh.read(1 << 16)
+            if not b:
+                break
+            chunks.append(b)
+    _, status = os.waitpid(pid, 0)
+    code = os.waitstatus_to_exitcode(status)
+    out = Part()
+    if code == 0 and chunks:
+        _merge_part(out, json.loads(b"".join(chunks)))
+        if "infra" in json.loads(b"".join(chunks)):
+            raise Infra(json.loads(b"".join(chunks))["infra"])
+        return out
+    if code == -signal.SIGALRM:
+        raise Infra(f"case timed out after {timeout}s")
+    out.case([case, "process-died"], api=case["api"], mode="died")
+    out.fail(
+        f"{case['api']}:process-killed:{code}",
+        f"the process running the saves of this case died (exit status {code}; negative = signal, -7 = SIGBUS: "
+        "an mmap of a file that was truncated in place was read)",
+        {"case": case},
+    )
+    return out
+
+
 def _worker(args):
     import logging
 
     logging.getLogger("onnx_ir.external_data").setLevel(logging.ERROR)
-    cases, crash = args
+    cases, crash, base = args
+    _BASE[0] = base
     part = Part()
     for case in cases:
-        try:
-            check_case(part, case, crash=crash)
-        except Infra:
-            raise
-        except Exception as e:  # harness problem: report as disagreement so that it is looked at
-            import traceback
-
-            part.disagree("harness exception " + repr(e), {"case": case, "tb": traceback.format_exc()[-800:]})
+        _merge_part(part, _isolated(case, crash))
     return part
 
 
@@ -1000,20 +1068,35 @@ def run(ctx: Ctx) -> None:
     n = ctx.pick(64, 600)
     for _ in range(n):
         cases.append(gen_case(ctx.rng))
-    for _ in range(ctx.pick(24, 200)):
+    for _ in range(ctx.pick(40, 300)):
         cases.append(gen_sharded(ctx.rng))
     for _ in range(ctx.pick(2, 6)):
         cases.append(gen_nul(ctx.rng))
-    chunks = [cases[i::16] for i in range(16)]
-    for part in pmap(_worker, [(c, True) for c in chunks if c]):
-        ctx.merge(part)
+    base = tempfile.mkdtemp(prefix="c08run-")
+    try:
+        chunks = [cases[i::16] for i in range(16)]
+        for part in pmap(_worker, [(c, True, base) for c in chunks if c]):
+            ctx.merge(part)
+    finally:
+        shutil.rmtree(base, ignore_errors=True)
     ctx.exhaustive_scopes.append("every effect index k of each generated save (exception and crash), plus one mid-write point per write of >= 2 bytes")
 
 
 def replay(ctx: Ctx, obj: dict) -> None:
-    c = obj.get("case", obj)
-    case = c["case"] if "case" in c else c
-    part = Part()
-    only = {"fault": c.get("fault"), "mode": c.get("mode", "exn")} if "fault" in c else None
-    check_case(part, case, crash=True, only=only)
-    ctx.merge(part)
+    """Re-run a recorded failing input (`kind: failing-input`) or the recorded disagreeing cases."""
+    items = []
+    if obj.get("kind") == "unchecked-obligation":
+        items = [d.get("case") or {} for d in obj.get("correspondence_disagreements", [])]
+    else:
+        items = [obj.get("case", obj)]
+    base = tempfile.mkdtemp(prefix="c08run-")
+    _BASE[0] = base
+    try:
+        for c in items:
+            case = c["case"] if "case" in c else c
+            if "api" not in case:
+                continue
+            only = {"fault": c.get("fault"), "mode": c.get("mode", "exn")} if c.get("fault") is not None else None
+            ctx.merge(_isolated(case, True, only))
+    finally:
+        shutil.rmtree(base, ignore_errors=True)
